@@ -798,11 +798,11 @@ Qed.
 Lemma Qpath_chars u c : In c (Q (u_path u)) -> c <> 63 /\ c <> 35.
 Proof. intros H. destruct (Q_chars _ _ H) as (A & B & _). auto. Qed.
 
-Theorem fulluri_reparse hostArg uri u : wf_bytes hostArg -> wf_bytes uri -> parse hostArg uri = UOk u -> ~ In PCT (Host u) ->
+Theorem fulluri_reparse_good u : good u -> ~ In PCT (Host u) ->
   exists u', parse [] (FullURI u) = UOk u' /\
     Scheme u' = Scheme u /\ Host u' = Host u /\ Path u' = Path u /\ QueryString u' = QueryString u /\ Hash u' = Hash u.
 Proof.
-  intros Hwh Hwu Hp Hn. unfold Host, PCT in Hn. pose proof (parse_good _ _ _ Hwh Hwu Hp) as G.
+  intros G Hn. unfold Host, PCT in Hn.
   destruct (scheme_good u G) as (S1 & S2 & S3 & S4 & S5). destruct (host_good u G Hn) as (H1 & H2 & H3 & H4).
   destruct (path_good u G) as (r & Ep & Enorm & Hr). destruct (serial_shapes u r Ep) as [_ EF].
   assert (EQ : exists R', Q (u_path u) ++ qpart (u_queryString u) ++ fpart (u_hash u) = 47 :: R').
@@ -819,11 +819,11 @@ Proof.
   repeat split. destruct (u_scheme u) eqn:E; [reflexivity|]. unfold Scheme in S1. rewrite E in S1. reflexivity.
 Qed.
 
-Theorem requesturi_reparse hostArg uri u : wf_bytes hostArg -> wf_bytes uri -> parse hostArg uri = UOk u -> ~ In PCT (Host u) ->
+Theorem requesturi_reparse_good u : good u -> ~ In PCT (Host u) ->
   exists u', parse (Host u) (RequestURI u) = UOk u' /\
     Host u' = Host u /\ Path u' = Path u /\ QueryString u' = QueryString u.
 Proof.
-  intros Hwh Hwu Hp Hn. unfold Host, PCT in Hn. pose proof (parse_good _ _ _ Hwh Hwu Hp) as G.
+  intros G Hn. unfold Host, PCT in Hn.
   destruct (host_good u G Hn) as (H1 & H2 & H3 & H4).
   destruct (path_good u G) as (r & Ep & Enorm & Hr). destruct (serial_shapes u r Ep) as [ER _].
   assert (EQ : exists R', Q (u_path u) ++ qpart (u_queryString u) = 47 :: R' /\ match R' with 47 :: _ => False | _ => True end).
@@ -842,6 +842,31 @@ Proof.
   cbn [fpart] in Et. rewrite app_nil_r in Et. rewrite Et. eexists. split; [reflexivity|].
   unfold Path, QueryString. cbn [u_host u_path u_queryString]. rewrite Enorm. auto.
 Qed.
+
+Theorem fulluri_reparse hostArg uri u : wf_bytes hostArg -> wf_bytes uri -> parse hostArg uri = UOk u -> ~ In PCT (Host u) ->
+  exists u', parse [] (FullURI u) = UOk u' /\
+    Scheme u' = Scheme u /\ Host u' = Host u /\ Path u' = Path u /\ QueryString u' = QueryString u /\ Hash u' = Hash u.
+Proof. intros Hwh Hwu Hp. apply fulluri_reparse_good. exact (parse_good _ _ _ Hwh Hwu Hp). Qed.
+Theorem requesturi_reparse hostArg uri u : wf_bytes hostArg -> wf_bytes uri -> parse hostArg uri = UOk u -> ~ In PCT (Host u) ->
+  exists u', parse (Host u) (RequestURI u) = UOk u' /\
+    Host u' = Host u /\ Path u' = Path u /\ QueryString u' = QueryString u.
+Proof. intros Hwh Hwu Hp. apply requesturi_reparse_good. exact (parse_good _ _ _ Hwh Hwu Hp). Qed.
+
+(* ---------- the setters keep a URI object in the class `good` (so the round trip also holds after editing) ---------- *)
+Lemma good_set_path u v : good u -> good (mkURI (u_scheme u) (u_host u) v (normalizePath v) (u_queryString u) (u_hash u) (u_username u) (u_password u)).
+Proof. intros G. constructor; cbn; [exact (g_scheme u G)|exact (g_host u G)|eauto|exact (g_qs u G)|exact (g_hash u G)]. Qed.
+Lemma good_set_hash u v : good u -> stringContainsCTLByte v = false ->
+  good (mkURI (u_scheme u) (u_host u) (u_pathOriginal u) (u_path u) (u_queryString u) v (u_username u) (u_password u)).
+Proof. intros G Hv. constructor; cbn; [exact (g_scheme u G)|exact (g_host u G)|exact (g_path u G)|exact (g_qs u G)|now apply ctl_forall]. Qed.
+Lemma good_set_qs u v : good u -> stringContainsCTLByte v = false -> ~ In HASH v ->
+  good (mkURI (u_scheme u) (u_host u) (u_pathOriginal u) (u_path u) v (u_hash u) (u_username u) (u_password u)).
+Proof. intros G Hv Hh. constructor; cbn; [exact (g_scheme u G)|exact (g_host u G)|exact (g_path u G)|split; [exact Hh|now apply ctl_forall]|exact (g_hash u G)]. Qed.
+Lemma good_set_scheme u v : good u -> wf_bytes v -> isValidScheme v = true ->
+  good (mkURI (lowercaseBytes v) (u_host u) (u_pathOriginal u) (u_path u) (u_queryString u) (u_hash u) (u_username u) (u_password u)).
+Proof. intros G Hw Hv. constructor; cbn; [right; exists v; auto|exact (g_host u G)|exact (g_path u G)|exact (g_qs u G)|exact (g_hash u G)]. Qed.
+Lemma good_set_userinfo u a b : good u ->
+  good (mkURI (u_scheme u) (u_host u) (u_pathOriginal u) (u_path u) (u_queryString u) (u_hash u) a b).
+Proof. intros G. constructor; cbn; [exact (g_scheme u G)|exact (g_host u G)|exact (g_path u G)|exact (g_qs u G)|exact (g_hash u G)]. Qed.
 
 (* ---------- what parseHost lets through (used by C31): the result always passed validateIPv6Literal ---------- *)
 Lemma parseHost_validated h0 ph : parseHost h0 = UOk ph -> validateIPv6Literal ph = V6Nil.
